@@ -138,7 +138,11 @@ def render(prog, o, choice, variant=0):
         if s['k'] == 'decoy':
             emit(['G(S)'], i)
         elif s['k'] == 'fwd':
-            call = call_text('w%d' % c['w'], s, c['n'], c['names'], va, vk, i)
+            if c.get('relay'):
+                # through an intermediate forwarder that takes its callee as first argument: R(w1, <the same arguments>)
+                call = call_text('R', s, c['n'], c['names'], va, vk, i).replace('R(', 'R(w%d, ' % c['w'], 1).replace(', )', ')')
+            else:
+                call = call_text('w%d' % c['w'], s, c['n'], c['names'], va, vk, i)
             if s['ctx'] == 'top':
                 ctx = 'expr' if variant == 0 else TOP_CONTEXTS[(i + variant) % len(TOP_CONTEXTS)]
                 emit(in_context(ctx, call, i), i)
@@ -203,11 +207,14 @@ class Recorder:
         f = sys._getframe(3)        # 0 this method, 1 the CALLED lambda, 2 the callee, 3 whoever called it
         sid = None
         # the statement: the innermost frame of the program's file below the callee
-        while f is not None and f.f_code.co_filename != self.fcode.co_filename:
+        while f is not None:
+            if f.f_code.co_filename == self.fcode.co_filename:
+                sid = linemap.get(f.f_lineno - self.fcode.co_firstlineno + 1)
+                if sid:
+                    break                      # (a relay function of the same file is skipped: its lines belong to no statement)
             f = f.f_back
         if f is None:
             return
-        sid = linemap.get(f.f_lineno - self.fcode.co_firstlineno + 1)
         while f is not None and f.f_code is not self.fcode:
             f = f.f_back
         if f is None or not sid:
@@ -229,6 +236,7 @@ def build(prog, o, ws, choice, variant):
     L = ['import contextlib']
     for k, w in enumerate(ws, 1):
         L += ['def w%d(%s):' % (k, absig.render_params(w)), '    CALLED()', '    return None']
+    L += ['def R(fn, *a, **k):', '    return fn(*a, **k)']
     pre = '\n'.join(L) + '\n'
     nlines = pre.count('\n')
     full = pre + src
@@ -281,8 +289,14 @@ def declared(f, g, prog, choice, fns):
             if not (uva or uvk):
                 continue
             c = choice[i - 1]
-            sig = specifiers.forwards(f, g['w%d' % c['w']], c['n'], *c['names'], use_varargs=uva, use_varkwargs=uvk,
-                                      hide_args=s['sa'] in ('other', 'two'), hide_kwargs=s['sk'] in ('other', 'two'))
+            if c.get('relay'):
+                # the declaration equivalent to R(w, ...): forward to R as it is when its first argument is w (public API: signature(obj, args=...))
+                inner = specifiers.signature(g['R'], args=(g['w%d' % c['w']],))
+                sig = signatures.forwards(signatures.signature(f), inner, c['n'] + 1, *c['names'], use_varargs=uva, use_varkwargs=uvk,
+                                          hide_args=s['sa'] in ('other', 'two'), hide_kwargs=s['sk'] in ('other', 'two'))
+            else:
+                sig = specifiers.forwards(f, g['w%d' % c['w']], c['n'], *c['names'], use_varargs=uva, use_varkwargs=uvk,
+                                          hide_args=s['sa'] in ('other', 'two'), hide_kwargs=s['sk'] in ('other', 'two'))
             items.append((s['ctx'] in ('top', 'dead'), sig))
     except ValueError:
         return [{'tag': 'valueerror'}]
@@ -311,8 +325,11 @@ def real_calls(f, callee_names, linemap_unused=None):
     out = []
     for c in v.calls:
         w = c.wrapped
-        if isinstance(w, _autoforwards.Name) and w.name in callee_names:
-            out.append({'w': w.name, 'useA': bool(c.use_varargs), 'hideA': bool(c.hide_args), 'useK': bool(c.use_varkwargs), 'hideK': bool(c.hide_kwargs)})
+        name = w.name if isinstance(w, _autoforwards.Name) else None
+        if name == 'R' and c.args and isinstance(c.args[0], _autoforwards.Name):
+            name = c.args[0].name              # R(w1, ...): the callee is the first argument
+        if name in callee_names:
+            out.append({'w': name, 'useA': bool(c.use_varargs), 'hideA': bool(c.hide_args), 'useK': bool(c.use_varkwargs), 'hideK': bool(c.hide_kwargs)})
     return out, tree
 
 
@@ -336,6 +353,7 @@ def program_event(tid, prog, o, ws, choice, kwmax=2, variants=(1, 2)):
         fns.add(f, 'f1')
         for k in range(len(ws)):
             fns.add(g['w%d' % (k + 1)], 'w%d' % (k + 1))
+        fns.add(g['R'], 'R')
         reported = retrieve_full(lambda: sigtools.signature(f), fns)
         plain = retrieve_full(lambda: signatures.signature(f), fns)
         decl = declared(f, g, prog, choice, fns)
@@ -393,7 +411,7 @@ def program_event(tid, prog, o, ws, choice, kwmax=2, variants=(1, 2)):
             'case': {'prog': prog, 'o': o, 'ws': ws, 'choice': choice, 'src': src}}
 
 
-def choose(prog, rnd, ncallee, same_callee):
+def choose(prog, rnd, ncallee, same_callee, relay=False):
     """the orthogonal dimensions the namespace machine does not see: which callee, how many positionals, which names"""
     out = []
     for i, s in enumerate(prog):
@@ -401,7 +419,11 @@ def choose(prog, rnd, ncallee, same_callee):
             w = 1 if same_callee else 1 + (i % ncallee)
             zname = CALLEE_NAMES[w - 1][2]
             n = 0 if s.get('arg', '-') != '-' else rnd.choice([0, 0, 1])       # the argument expression already is one written positional
-            out.append({'w': w, 'n': n, 'names': rnd.choice([[], [], [zname]])})
+            # a name handed over as an argument is Unknown to the walker from then on (it may have been rebound by the code it was handed to):
+            # a callee goes through the relay only if it is used exactly once in the body (processing order is not source order)
+            use_relay = relay and s.get('arg', '-') == '-' and not any(t['k'] == 'fwd' and (1 if same_callee else 1 + (j % ncallee)) == w
+                                                                         for j, t in enumerate(prog) if j != i)
+            out.append({'w': w, 'n': n, 'names': rnd.choice([[], [], [zname]]), 'relay': use_relay})
         elif s['k'] == 'taint':
             out.append({'tkey': CALLEE_NAMES[0][3]})
         else:
